@@ -1239,8 +1239,9 @@ class CompilerPassGatherCode(CompilerPass):
             for label, target_line in label_map.items():
                 # labels contain '.', so '\b' alone would also match a label
                 # inside a longer one ('update' in 'update.display')
-                pattern = r"(?<![\w.]){}(?![\w.])".format(re.escape(label))
-                if re.search(pattern, line):
+                # and text in quotes (HASH("..."), STR("...")) is data, not a label
+                pattern = r'"[^"]*"|(?<![\w.])({})(?![\w.])'.format(re.escape(label))
+                if any(m.group(1) for m in re.finditer(pattern, line)):
                     if relative_numbers:
                         offset = target_line - line_num
                         replacement = str(offset)
@@ -1252,7 +1253,11 @@ class CompilerPassGatherCode(CompilerPass):
                     else:
                         replacement = str(target_line)
 
-                    line = re.sub(pattern, replacement, line)
+                    line = re.sub(
+                        pattern,
+                        lambda m: replacement if m.group(1) else m.group(0),
+                        line,
+                    )
             new_code[line_num] = line
 
         new_code = "\n".join(new_code)
